@@ -564,3 +564,57 @@ def mj_optimum(mjm, st, tol=1e-12, iters=300, solver=None, warm=None):
   finally:
     mm.opt.tolerance, mm.opt.iterations, mm.opt.solver, mm.opt.ls_iterations, mm.opt.ls_tolerance = old
   return mjd
+
+
+# ------------------------------------------------------------------------------------------- finding classifiers
+
+
+def weldparent_invweight_ratio(mjm, eqid, subrow):
+  """For a connect/weld equality: invweight0(constrained bodies) / invweight0(their weld parents), or None if the bodies
+  are their own weld ids. D ~ 1/invweight, so a sparse-path row built from the weld parents has D_mjwarp/D_mujoco == ratio."""
+  e = int(eqid)
+  if int(mjm.eq_type[e]) not in (int(mujoco.mjtEq.mjEQ_CONNECT), int(mujoco.mjtEq.mjEQ_WELD)):
+    return None
+  if int(mjm.eq_objtype[e]) == int(mujoco.mjtObj.mjOBJ_SITE):
+    b1, b2 = int(mjm.site_bodyid[mjm.eq_obj1id[e]]), int(mjm.site_bodyid[mjm.eq_obj2id[e]])
+  else:
+    b1, b2 = int(mjm.eq_obj1id[e]), int(mjm.eq_obj2id[e])
+  w1, w2 = int(mjm.body_weldid[b1]), int(mjm.body_weldid[b2])
+  if (w1, w2) == (b1, b2):
+    return None
+  comp = 1 if (int(mjm.eq_type[e]) == int(mujoco.mjtEq.mjEQ_WELD) and subrow >= 3) else 0
+  iw_own = float(mjm.body_invweight0[b1, comp] + mjm.body_invweight0[b2, comp])
+  iw_weld = float(mjm.body_invweight0[w1, comp] + mjm.body_invweight0[w2, comp])
+  if iw_weld <= 0 or iw_own <= 0:
+    return None
+  return iw_own / iw_weld
+
+
+def only_weldparent_D_differs(mjm, P, Pj):
+  """True iff the D of MJWarp's problem P and MuJoCo's Pj agree (1e-3) on every non-contact row except connect/weld rows
+  whose D ratio equals the weld-parent invweight ratio, and at least one such row exists (narrow mechanism test)."""
+
+  def keyed(Q):
+    seen, out = {}, {}
+    for i in range(Q["n"]):
+      t, oid = int(Q["type"][i]), int(Q["id"][i])
+      if t >= T_CFL:
+        continue
+      k = seen.get((t, oid), 0)
+      seen[(t, oid)] = k + 1
+      out[(t, oid, k)] = i
+    return out
+
+  a, b = keyed(P), keyed(Pj)
+  if set(a) != set(b):
+    return False
+  hit = False
+  for key, i in a.items():
+    r = P["D"][i] / Pj["D"][b[key]]
+    if abs(r - 1) <= 1e-3:
+      continue
+    want = weldparent_invweight_ratio(mjm, key[1], key[2]) if key[0] == T_EQ else None
+    if want is None or abs(r - want) > 1e-3 * want:
+      return False
+    hit = True
+  return hit
